@@ -50,6 +50,7 @@ class Plan:
         self.prop = prop
         self.mc = []            # (module, cfg, workers, timeout)
         self.families = []      # (name, batch, profile, generator(ids, rng) -> scenarios)
+        self.tables = []        # (name, batch, profile, generator(rng) -> table requests)
         self.rule = ""
         self.nontrivial = lambda sc: True
         self.assumptions = []
@@ -195,6 +196,43 @@ def plan_for(prop, tier, seed):
         p.families = [
             ("scroll", True, "dev", lambda ids, rng: G.f_scroll(ids, rng, nrandom=300 if q else 6000, offsets="sample" if q else "all")),
         ]
+    elif prop == "C05":
+        p.rule = ("table rows = blocks of 256 consecutive colour values pushed through the real InterfacePixelFormat::send_pixels "
+                  "and send_repeated_pixel on each word type (all 65 536 Rgb565 values; Rgb666: all values in the thorough tier, "
+                  "every value of every channel + seeded blocks in the quick tier); scenarios = walking-bit colours drawn through "
+                  "every built-in model on every transport and decoded back")
+        p.nontrivial = lambda sc: True
+        p.exhaustive = not q
+        p.tables = [("colours", True, "dev", lambda rng: G.t_colours(rng, full666=not q))]
+        p.families = [
+            ("colour-displays", True, "dev", lambda ids, rng: G.f_colour_displays(ids, rng)),
+            ("model-init", True, "dev", lambda ids, rng: G.f_model_init(ids, rng, full=False, after=False)),
+        ]
+    elif prop == "C14":
+        p.rule = ("table rows = SetAddressMode::new / From<&ModelOptions> for all 64 input combinations, and sequences of 1..3 "
+                  "with_* setters from all 64 API-reachable starting values (length 1 complete, 2 and 3 seeded samples in the "
+                  "quick tier, complete in the thorough tier)")
+        p.exhaustive = not q
+        p.tables = [("madctl", True, "dev", lambda rng: G.t_madctl(rng, seq3_sample=0.02 if q else 1.0))]
+        p.families = [("model-init", True, "dev", lambda ids, rng: G.f_model_init(ids, rng, full=False, after=True))]
+    elif prop == "C15":
+        p.rule = ("table rows = all words of length <= 4 over {rotate 0/90/180/270, flip_horizontal, flip_vertical} from all 8 "
+                  "orientations (closure is reached at length 3), angle parsing over -720..720, the i32 ends, seeded samples and "
+                  "a strided (quick) / complete (thorough) sweep of all 2^32 angles against the validated residue table")
+        p.exhaustive = not q
+        p.tables = [("orient", True, "dev", lambda rng: G.t_orient(rng, maxlen=3 if q else 4, stride=(1 << 8) if q else 1))]
+        p.families = [("reorient-drawn", True, "dev", lambda ids, rng: G.f_reorient(ids, rng, G.tiny_model_list([(3, 2), (2, 3)], rng, 4), ifaces=("rec",), sample=0.5 if q else 1.0))]
+    elif prop == "C18":
+        p.rule = ("table rows = every command type with boundary-value, seeded random and (thorough) all-65536-per-position "
+                  "arguments, serialised on buffers pre-filled with A5h and 5Ah, and sent through write_command / write_raw")
+        p.tables = [("dcs", True, "dev", lambda rng: G.t_dcs(rng, nrandom=2000 if q else 60000, all_u16=not q))]
+    elif prop == "C19":
+        p.rule = ("table rows = TestImage drawn on a clipping framebuffer for every size 0x0..NxN (N = 40 quick / 96 thorough) "
+                  "and three colour types; predicates evaluated for sizes >= 32x32; scenarios = the image drawn through real "
+                  "Displays in all orientations")
+        p.tables = [("testimage", True, "dev", lambda rng: G.t_testimage(rng, maxsize=40 if q else 96,
+                                                                          big=[(65535, 33), (33, 65535), (1000, 700)] if not q else [(400, 33)]))]
+        p.families = [("testimage-display", True, "dev", lambda ids, rng: G.f_testimage_display(ids, rng, q))]
     else:
         raise ToolError("no plan for property %s" % prop)
     return p
@@ -268,6 +306,37 @@ def execute_families(p, seed, workdir, only_build=None):
     return by_id, viol, stat, states, trans, fam_info
 
 
+def execute_tables(p, seed, workdir):
+    bad_all, rows, states, trans, info, samples, distinct = [], 0, 0, 0, [], [], 0
+    for (name, batch, profile, g) in p.tables:
+        rng = random.Random("%d/%s/%s" % (seed, p.prop, name))
+        reqs = g(rng)
+        seen, uniq = set(), []
+        for r in reqs:
+            k = json.dumps(r, sort_keys=True)
+            if k not in seen:
+                seen.add(k)
+                uniq.append(r)
+        binary = run.build_harness(batch, profile)
+        t0 = time.time()
+        lines = run.exec_table(binary, uniq, workdir, name)
+        t1 = time.time()
+        bad, n, ds, gs = run.validate_rows(lines, workdir, name)
+        log("[%s] table %s: %d rows, exec %.1fs, validate %.1fs, %d bad rows" % (p.prop, name, n, t1 - t0, time.time() - t1, len(bad)))
+        for b in bad:
+            b["_req"] = uniq[b["row"]]
+            b["_build"] = {"batch": batch, "profile": profile}
+        bad_all += bad
+        rows += n
+        states += ds
+        trans += gs
+        distinct += len(uniq)
+        info.append({"table": name, "rows": n, "batch": batch, "profile": profile})
+        if uniq:
+            samples += [uniq[0], uniq[len(uniq) // 2], uniq[-1]]
+    return bad_all, rows, states, trans, info, samples, distinct
+
+
 def write_replay(prop, sc, vs):
     os.makedirs(os.path.join(VERIF, "replays"), exist_ok=True)
     h = run.scenario_hash(sc)
@@ -318,6 +387,20 @@ def check(prop, tier, seed):
             print("KNOWN-FINDING: property=%s %s (%d occurrences in this run)" % (prop, line, len(vs)))
         rc = 0
         replay_paths = []
+        tbad, trows, tst, ttr, tinfo, tsamples, tdistinct = execute_tables(p, seed, workdir)
+        tstates += tst
+        ttrans += ttr
+        for b in tbad[:20]:
+            h = run.scenario_hash({"cfg": b["_req"], "calls": [], "fault": None})
+            path = os.path.join(VERIF, "replays", "%s-row-%s.json" % (prop, h))
+            os.makedirs(os.path.dirname(path), exist_ok=True)
+            with open(path, "w") as f:
+                json.dump({"property": prop, "build": b["_build"], "table_request": b["_req"], "what": b["what"]}, f, indent=1)
+            print("VIOLATION property=%s replay=%s" % (prop, path))
+            print("  %s %s: %s" % (b["f"], json.dumps(b["_req"]["in"])[:200], b["what"]))
+            rc = 1
+        if len(tbad) > 20:
+            print("  (%d further bad rows not written out)" % (len(tbad) - 20))
         for sid, vs in sorted(new_by_scn.items())[:20]:
             path = write_replay(prop, by_id[sid], vs)
             replay_paths.append(path)
@@ -345,16 +428,18 @@ def check(prop, tier, seed):
                 "mc_states": mc_states, "mc_transitions": mc_trans,
                 "mc_models": [{k: r[k] for k in ("module", "states", "transitions", "wall_s")} for r in mc_res],
                 "trace_states": tstates, "trace_transitions": ttrans,
-                "traces_validated_against_impl": stat.get("done", 0),
+                "traces_validated_against_impl": stat.get("done", 0) + (1 if trows else 0) * len(tinfo),
+                "table_rows_validated": trows,
+                "tables": tinfo,
                 "scenarios_executed": len(scs),
-                "evaluations": stat.get("calls", 0),
+                "evaluations": stat.get("calls", 0) + trows,
                 "wire_ops_replayed": stat.get("wireops", 0),
                 "calls_that_changed_the_picture": stat.get("painted", 0),
                 "faults_injected": stat.get("faults", 0),
-                "distinct_nontrivial": nt,
+                "distinct_nontrivial": nt + tdistinct,
                 "rule": p.rule,
                 "families": fam_info,
-                "samples": samples,
+                "samples": samples + tsamples,
                 "exhaustive": p.exhaustive,
                 "known_findings_seen": sorted(known_hits.keys()),
                 "verdict_records_for_other_properties": others,
@@ -365,7 +450,7 @@ def check(prop, tier, seed):
                 "harness records faithfully (self-test: corrupted traces are rejected)",
             ],
             "wall_s": round(time.time() - t0, 1),
-            "violations": len(new_by_scn),
+            "violations": len(new_by_scn) + len(tbad),
         }
         os.makedirs(os.path.join(VERIF, "evidence"), exist_ok=True)
         with open(os.path.join(VERIF, "evidence", "%s.json" % prop), "w") as f:
@@ -379,9 +464,22 @@ def check(prop, tier, seed):
 
 def replay(prop, path):
     d = json.load(open(path))
-    sc = d["scenario"]
     b = d.get("build", {"batch": True, "profile": "dev"})
     workdir = os.path.join(run.WORK, "replay.%d" % os.getpid())
+    if "table_request" in d:
+        try:
+            binary = run.build_harness(b["batch"], b["profile"])
+            lines = run.exec_table(binary, [d["table_request"]], workdir, "replay")
+            bad, _, _, _ = run.validate_rows(lines, workdir, "replay")
+            if bad:
+                print("  %s: %s" % (bad[0]["f"], bad[0]["what"]))
+                print("VIOLATION property=%s replay=%s" % (prop, path))
+                return 1
+            print("replay: property %s holds on this row" % prop)
+            return 0
+        finally:
+            shutil.rmtree(workdir, ignore_errors=True)
+    sc = d["scenario"]
     try:
         binary = run.build_harness(b["batch"], b["profile"])
         lines = run.exec_scenarios(binary, [sc], workdir, "replay")
